@@ -55,7 +55,7 @@ def pn(**kw):
 
 
 def burn(**kw):
-    d = dict(Accts=S(['a1', 'a2']), Kinds=S(['bank.Send', 'bank.MultiSend', 'vesting.Create']), Amts=S([0, 7]), SendDenoms=S(['umed', 'ubig']),
+    d = dict(Accts=S(['a1', 'a2']), Kinds=S(['bank.Send', 'bank.SendMod', 'bank.MultiSend', 'vesting.Create']), Amts=S([0, 7]), SendDenoms=S(['umed', 'ubig']),
              VestEnds=S([4]), MaxHeight=5, Fees=S([0]))
     d.update(kw)
     return mk(**d)
@@ -144,6 +144,12 @@ def preset(pid, tier):
             cross = did(Accts=S(['a1', 'a2']), Dids=S(['d1', 'dc']), ViewDids=S(['d1', 'dc']), DocNames=S(['A1', 'A2', 'R1']), Keys=S(['k1', 'k2']), VmNames=S(['v1']),
                         ForeignVm=True, MaxDeliver=30, MaxHeight=5, NextKinds=ALL_NEXT_R, FailKeep=25)
             sims.append(sim(cross, 60 if q else 1000, 40))
+        if pid == 'C04':
+            # clients estimate gas by simulating the transaction they then broadcast; accepted messages are submitted again later in fresh transactions
+            again = did(Accts=S(['a1', 'a2']), Dids=S(['d1', 'dc']), ViewDids=S(['d1', 'dc']), DocNames=S(['A1', 'A2']), Keys=S(['k1', 'k2']), VmNames=S(['v1']),
+                        MaxDeliver=24, MaxHeight=6, NextKinds=ALL_NEXT_R | S(['Resubmit']), FailKeep=25)
+            sims.append(sim(again, 40 if q else 600, 40, genesis=dict(simfirst=True)))
+            sims.append(sim(again, 20 if q else 300, 40))
         if pid == 'C05':
             # histories that start from a legacy registry entry (key dc holding a document about d1): deactivation must tombstone the KEY that was addressed
             legacy = did(Accts=S(['a1', 'a2']), Dids=S(['d1', 'dc']), ViewDids=S(['d1', 'dc']), DocNames=S(['A1', 'A2']), Keys=S(['k1', 'k2']), VmNames=S(['v1']),
@@ -153,6 +159,8 @@ def preset(pid, tier):
             bulk = did(Accts=S(['a1', 'a2']), Dids=S(['d1', 'd2']), ViewDids=S(['d1', 'd2']), DocNames=S(['A1', 'A2']), Keys=S(['k1', 'k2']), VmNames=S(['v1']),
                        MaxDeliver=10, MaxHeight=5, NextKinds=ALL_NEXT, FailKeep=25)
             sims.append(sim(bulk, 24 if q else 300, 30, genesis=dict(bulk=150)))
+            # read noise: before every step's views the same queries are served at the previous committed height; transactions are simulated before delivery
+            sims.append(sim(bulk, 30 if q else 400, 30, genesis=dict(oldreads=True, simfirst=True)))
         return dict(mc=mcc, props=props, invs=invs, tour=tourc, sims=sims, mc_timeout=5400)
     if pid in ('C06', 'C12'):
         props = {'C06': ['P_C06'], 'C12': ['P_C12']}[pid]
@@ -182,17 +190,20 @@ def preset(pid, tier):
         # 150 bulk denoms and 150 bulk tokens in one denom, all owned by a4: listings beyond any default page size; a4 and the bulk denom are in the alphabet
         bulkp = pn(Accts=S(['a1', 'a4']), DenomIds=S(['n1', 'f000']), TokenIds=S(['i1', 'g000']), ViewDenoms=S(['n1', 'f000', 'f001']), ViewTokens=S(['i1', 'g000', 'g001']),
                    MaxDeliver=12, MaxHeight=4, NextKinds=ALL_NEXT, FailKeep=20)
-        return dict(mc=mcc, props=props, invs=invs, tour=tourc,
+        # rollback probes over a small PNFT alphabet: [m1, m2, always-failing] before every alphabet transaction - a hand-over or an update that was rolled back
+        # must leave nothing behind (in the stores or in process memory) that changes who may act next
+        probec = pn(Accts=S(['a1', 'a2']), DenomIds=S(['n1']), TokenIds=S(['i1']), ViewDenoms=S(['n1']), ViewTokens=S(['i1']), MaxDeliver=2 if q else 3, MaxHeight=2)
+        return dict(mc=mcc, props=props, invs=invs, tour=[dict(constants=tourc), dict(constants=probec, probes=True, fanout=6 if q else 0)],
                     sims=[sim(simc, 150 if q else 3000, 60), sim(hostile, 40 if q else 600, 30), sim(pair1, 50 if q else 800, 40), sim(pair2, 30 if q else 500, 40),
                           # account a2 spells its address in upper case (a legal bech32 spelling of the same address) in every message field
                           sim(pair1, 30 if q else 500, 40, genesis=dict(upper=['a2'])),
                           sim(bulkp, 10 if q else 120, 25, genesis=dict(bulk=150))], mc_timeout=2400)
     if pid == 'C07':
         mcc = burn(MaxDeliver=3 if q else 5, MaxHeight=5, GovAmts=S([5]), NextKinds=S(['BeginBlock', 'GovSchedule']))      # thorough: 661k states / 9.2M transitions
-        simc = burn(Accts=S(['a1', 'a2', 'a3']), Amts=S([0, 1, 7, 1000]), Kinds=S(['bank.Send', 'bank.SendAcct', 'bank.MultiSend', 'vesting.Create']),
+        simc = burn(Accts=S(['a1', 'a2', 'a3']), Amts=S([0, 1, 7, 1000]), Kinds=S(['bank.Send', 'bank.SendAcct', 'bank.SendMod', 'bank.MultiSend', 'vesting.Create']),
                     VestEnds=S([4, 6]), MaxDeliver=30, MaxHeight=9, FailKeep=3)
         # a route that needs no transaction in the block in which the coins arrive: governance community-pool spends to the burn address
-        govc = dict(burn(Accts=S(['a1', 'a2']), Amts=S([7]), Kinds=S(['bank.Send', 'vesting.Create']), VestEnds=S([4, 6]), GovAmts=S([5, 70]),
+        govc = dict(burn(Accts=S(['a1', 'a2']), Amts=S([7]), Kinds=S(['bank.Send', 'bank.SendMod', 'vesting.Create']), VestEnds=S([4, 6]), GovAmts=S([5, 70]),
                          NextKinds=ALL_NEXT | S(['GovSchedule']), MaxDeliver=12, MaxHeight=10, FailKeep=3), SimSample=4, BlockKeep=2)
         return dict(mc=mcc, props=['P_C07'], invs=['I_C07'],
                     sims=[sim(simc, 80 if q else 1500, 40), sim(simc, 60 if q else 1000, 40, genesis=dict(mint=True)),
